@@ -19,6 +19,7 @@ type Case struct {
 	Schema   string
 	Expect   string // "reject", "accept" or "terminate" (verdict unasserted)
 	Control  bool
+	confirm  bool // second execution after a watchdog expiry
 }
 
 func (c *Case) sig() string {
